@@ -68,8 +68,9 @@ def project(fig, path, names, all_axes=False):
     P["title"] = ax0.get_title()
     P["xlabel"] = per_axes(lambda ax: ax.get_xlabel()) if not all_axes else ax0.get_xlabel()
     P["ylabel"] = ax0.get_ylabel()
-    P["xlim"] = tuple(round(v, 6) for v in ax0.get_xlim())
-    P["ylim"] = tuple(round(v, 6) for v in ax0.get_ylim())
+    P["xlim"] = per_axes(lambda ax: tuple(round(float(v), 6) for v in ax.get_xlim()))
+    P["ylim"] = per_axes(lambda ax: tuple(round(float(v), 6) for v in ax.get_ylim()))
+    P["xscale_all"] = per_axes(lambda ax: ax.get_xscale())
     P["xticks"] = tuple(round(float(v), 6) for v in ax0.get_xticks())
     P["yticks"] = tuple(round(float(v), 6) for v in ax0.get_yticks())
     P["xticklabels"] = tuple(t.get_text() for t in ax0.get_xticklabels())
@@ -138,6 +139,8 @@ def owned_ok(prop, expected, P, P0):
             return None if got == expected else "%s: expected %r, figure has %r" % (prop, expected, got)
         if prop in ("xlim", "ylim"):
             e = tuple(_nums(expected))
+            if got is not None and len(got) == 2 and got[0] == "differs":
+                return "%s: expected %r on every sub-axes, the sub-axes have %r" % (prop, e, got[1])
             return None if got is not None and all(abs(a - b) < 1e-6 for a, b in zip(got, e)) else "%s: expected %r, figure has %r" % (prop, e, got)
         if prop in ("xticks", "yticks"):
             e = tuple(_nums(expected))
